@@ -129,6 +129,8 @@
 // Get docs.rs to display all compression methods and corresponding feature flags.
 // That is used jointly with `package.metadata.docs.rs` in the `Cargo.toml`
 #![cfg_attr(docsrs, feature(doc_auto_cfg))]
+// Verification hooks (only active under `cargo kani`, see /verif): constant schema nodes need const Vec construction
+#![cfg_attr(kani, feature(const_heap))]
 
 pub mod de;
 pub mod schema;
@@ -142,6 +144,13 @@ pub use single_object_encoding::{
 };
 
 pub mod object_container_file_encoding;
+
+/// Verification harness mount point (only compiled under `cargo kani`; source lives outside this repository)
+#[cfg(kani)]
+#[allow(unused, missing_docs)]
+pub(crate) mod verif {
+	include!(concat!(env!("SAF_VERIF"), "/root.rs"));
+}
 
 /// Deserialize from an avro "datum" (raw data, no headers...) slice
 ///
